@@ -73,7 +73,7 @@ func vfGSParams(name string) GossipSubParams {
 	p.Connectors = 1
 	p.MaxPendingConnections = 8
 	p.DirectConnectTicks = 1000
-	p.DirectConnectInitialDelay = time.Hour
+	p.DirectConnectInitialDelay = time.Second
 	p.PruneBackoff = 4 * time.Second
 	p.UnsubscribeBackoff = 2 * time.Second
 	p.GraftFloodThreshold = time.Second
